@@ -923,6 +923,25 @@ func checkWindow(e *Env, p *load.Program) {
 		r.Unknown("E3.window", "parser.Parse/marker-test", p.Pos(marker.Pos()), "marker test is not a branch condition")
 		return
 	}
+	// every scanned line reaches the marker test: nothing but the loop's own Scan() condition decides whether it runs (a
+	// line that is skipped earlier - too short, blank, a comment - could be a function header)
+	{
+		bypass := ""
+		for _, cd := range flow.DomConds(markerIf.Block()) {
+			c := flow.Norm(cd)
+			if call, ok := c.V.(*ssa.Call); ok && flow.CalleeIs(call, "bufio", "Scanner.Scan") && c.Pol {
+				continue
+			}
+			// a condition established before the loop (file opened, no error) is not about the line
+			if cd.At != nil && !flow.Reachable(markerIf.Block(), nil)[cd.At.Block()] {
+				continue
+			}
+			bypass = p.Pos(cd.V.Pos())
+		}
+		r.Check(bypass == "", "E3.window", "parser.Parse/marker-test-for-every-line", p.Pos(markerIf.Pos()),
+			"the function-marker test runs for every scanned line",
+			"a scanned line can bypass the function-marker test (condition at "+bypass+"): a function header on such a line is missed, the window is not reset and a syscall number can be taken from the previous function")
+	}
 	// the dynamic parse call and its window argument
 	var parseCall *ssa.Call
 	for _, c := range flow.Calls(fn) {
